@@ -36,16 +36,21 @@ class Gen:
         self.fresh = 0
         self.guards = []     # loop guard variables currently protected (must not occur in a for body)
         self.stats = {}
+        self.kinds = []
         self.twins = []      # (sugar text, documented plain rewriting) for every sugar statement emitted
 
-    def sugar(self, sugar_text, plain_text):
+    def sugar(self, sugar_text, plain_text, kind='sugar'):
         """emit a sentinel that renders as the sugar spelling or as its documented rewriting"""
         self.twins.append((sugar_text, plain_text))
+        self.kinds.append(kind)
         return '§%d§' % (len(self.twins) - 1)
 
-    def render(self, text, plain=False):
-        for k, (a, b) in enumerate(self.twins):
-            text = text.replace('§%d§' % k, b if plain else a)
+    def render(self, text, plain=False, only=None):
+        """expand sentinels (outermost first); `only`: set of sentinel kinds rendered plain"""
+        for k in range(len(self.twins) - 1, -1, -1):
+            a, b = self.twins[k]
+            use_plain = plain if only is None else (self.kinds[k] in only)
+            text = text.replace('§%d§' % k, b if use_plain else a)
         return text
 
     def note(self, k):
@@ -188,7 +193,10 @@ class Gen:
             return self.assign()
         if k < 0.8:
             self.note('while')
-            return f'while ({self.cond()}) {self.block(depth + 1)}'
+            c, b = self.cond(), self.block(depth + 1)
+            if getattr(o, 'loop_twin', False):
+                return self.sugar(f'while ({c}) {b}', f'do {b} while ({c});', kind='loop')
+            return f'while ({c}) {b}'
         if k < 0.87:
             self.note('dowhile')
             return f'do {self.block(depth + 1)} while ({self.cond()});'
